@@ -4,7 +4,7 @@ from ..core import Violation
 from .. import pipeline, recvfeed, protocol, edgefeed, netfeed
 
 ID = 'C03'
-PROP_FILES = ['C03', 'C03Join', 'C03JoinMulti', 'EdgeRecv', 'EdgeSend', 'C03Edge', 'C03EdgeLive', 'ChainSend', 'ChainRecv', 'C03Net', 'C03Tree', 'RejoinRecv', 'C03Rejoin', 'IndepJoinInv', 'C03IndepJoin', 'IndepJoinSinkInv', 'C03IndepJoinSink', 'RejoinSkipRecv', 'RejoinSkipSend', 'C03RejoinSkip', 'RejoinSinkInv', 'C03RejoinSink', 'RejoinLongInv', 'C03RejoinLong']
+PROP_FILES = ['C03', 'C03Join', 'C03JoinMulti', 'EdgeRecv', 'EdgeSend', 'C03Edge', 'C03EdgeLive', 'ChainSend', 'ChainRecv', 'C03Net', 'C03Tree', 'RejoinRecv', 'C03Rejoin', 'IndepJoinInv', 'C03IndepJoin', 'IndepJoinSinkInv', 'C03IndepJoinSink', 'RejoinSkipRecv', 'RejoinSkipSend', 'C03RejoinSkip', 'RejoinSinkInv', 'C03RejoinSink', 'RejoinLongInv', 'C03RejoinLong', 'RejoinLongTopo', 'RejoinLongNoSkip', 'C03RejoinLongNoSkip']
 MODULES = ['OFModel.Zmq.Receiver', 'OFModel.Zmq.Sender', 'OFModel.Zmq.Pair', 'OFModel.Zmq.PairReq', 'OFModel.Zmq.Net', 'OFModel.FilterLoop', 'OFModel.Gen.Facts']
 RULE = ('MQNet pipelines (real MQ/ZMQSender/ZMQReceiver objects, thread-less event loop, virtual time): topologies drawn from chain / tee / tee-rejoin (2-3 branches) / '
         'independent join with 3-7 filters, behaviours from {pass, None on chosen ids (not on rejoined branches), {}, lone Frame, callable, add/rename topic}, '
@@ -31,7 +31,7 @@ ASSUMPTIONS = ['partial: stage A component theorems are proved (publish-or-disca
                'C03_edge_needs_required (required=[] + second client) and C03_edge_needs_new_flag (new flag dropped, pair alone) on the same step function, and C03_edge_pair_alone_any_required (in the pair ALONE outs_required is never exercised: '
                'nothing is published before some client is tracked and the only client is tracked only after it heard).  NOT modelled there: MQ.send wrapping frames in a callable (stage A3), multi-topic blocks, HWM, several consumers as full automata, restarts',
                'stage C PROVED on the network model OFModel/Zmq/Net.lean for CHAINS (C03_net_chain_composition, OFProps/C03Net.lean) and TEES / TREES (C03_net_tree_composition, C03_net_tree_edge, OFProps/C03Tree.lean: node 0 the source, every other node subscribed to ONE earlier node, any number of consumers per publisher): arbitrary process functions whose results are dicts of distinct non-empty topic names (ProcNames), every restart-free schedule of recv i | send i @t (no bound, any clock readings): for every node the log of (id, [(topic, content)]) sets its process() was called with is a PREFIX of the source frames 0..N-1 threaded through the process functions on the path to it (Loop.processFrames normalisation: None drops the frame downstream, {} = empty set, lone Frame = main, callable = its value; hidden topics removed; ids = the source\'s consecutive ids of the surviving frames, handed on unchanged); C03_net_chain_deferred_at_send: the callable is evaluated only in the send that publishes its value (or frees the loop on None). Helper theorems send0_chain (exact outcome of one MQ.send) and call0_chain (single-source consumer over a queue of complete multi-topic blocks).  In Net delivery is immediate and every SUB connection is up from the start, so NO outs_required is needed there (a late consumer finds the blocks in its queue); required matters with the slow joiner, proved at edge level only (PairReq).  TEE-REJOIN (C03_net_rejoin_composition, OFProps/RejoinRecv.lean + C03Rejoin.lean): source, b >= 1 one-relay branches none of which returns None ({} allowed) and each publishing its own topic names, join subscribed to all branches: for every restart-free schedule the sets handed to the join are a PREFIX of: for n = 0,1,2,.. the set with id n holding every branch\'s output for the source\'s n-th surviving frame (all branches, same frame, none skipped, from frame 0); kernel-checked witness C03_net_rejoin_needs_noskip (a skipping branch: the join gets the common ids only), replayed on the real classes in every run.  INDEPENDENT JOIN (C03_net_indep_join_composition / _exact / _surviving / _no_fast_forward, OFProps/IndepJoinInv.lean + C03IndepJoin.lean): b >= 1 source filters each with its OWN frame counter (MQ.send passes state=None: the id is the ZMQSender\'s min_send_id), each publishing its own topic names, join subscribed to all of them: for every restart-free schedule the sets handed to the join are a PREFIX of: for n = 0,1,2,.. the set with id n holding, source after source, the visible topics of source i\'s n-th frame (no source returns None: NoSkipSrc); WITHOUT that hypothesis (_surviving) the n-th SURVIVING frames - a None at a source never reaches its sender, consumes no id, and no other source is fast-forwarded (per source: min_send_id = number of blocks published, published ++ held = its own surviving frames); kernel-checked witness C03_net_indep_join_needs_noskip, replayed on the real classes in every run.  With a SINK below the independent join (C03_net_indep_join_sink_composition / _surviving, OFProps/IndepJoinSinkInv.lean + C03IndepJoinSink.lean, topology sources -> join -> sink): the join\'s sets as above AND the sets handed to the sink are a PREFIX of the join\'s process function threaded through those sets (None of the join drops the id for the sink, ids handed on unchanged).  NOT proved at stage C: rejoins with longer branches, relays between the sources and an independent join, restarts, loss / HWM / connection timing (skipping branches and a sink below a tee-REjoin: next entry)',
-               'tee-REJOIN WITH SKIPPING BRANCHES (stage C): TEE-REJOIN WITH SKIPPING BRANCHES (C03_net_rejoin_common_ids, OFProps/RejoinSkipRecv.lean + RejoinSkipSend.lean + C03RejoinSkip.lean): NoSkip removed - any branch may return None (directly or as the value of its callable) for any set; hypotheses ProcNames, Owned and BranchCntFree (the result of a branch does not depend on its call counter); for every restart-free schedule the sets handed to the join are a PREFIX of rejoinSpecSkip: the surviving source frames of which EVERY branch makes a dict, in increasing order, each set holding the output of every branch for that very frame (never mixed, nothing common lost, nothing duplicated or reordered).  Covers the receiver path "newer id: adopt it, reset the other sources" on dynamic streams (SInv, take_sinv, call0_joinS) and the fast-forward path of the sender (send0_ffwd): the join asks every branch for the adopted id - 1, a branch still holding an older frame drops it unpublished, is fast-forwarded, and its receiver discards the source frames below the adopted id WITHOUT calling process() - all of them frames a sibling dropped.  That is why BranchCntFree is needed: kernel-checked witness C03_net_rejoin_skip_needs_cntfree (a branch that drops "its fourth set": the frames handed to the join depend on the schedule), and the fast-forward witness fSched is replayed on the real classes in every run (netfeed.rejoin_ffwd_witness) together with negative controls of the oracle (loss / mixed / duplicate).  With a SINK below the tee-rejoin (C03_net_rejoin_sink_composition / _run / _edge, OFProps/RejoinSinkInv.lean + C03RejoinSink.lean, topology source -> b branches -> join -> sink, same hypotheses, the process functions of join and sink arbitrary): the sets handed to the join are a PREFIX of rejoinSpecSkip AND the sets handed to the sink are a PREFIX of the join\'s process function threaded through those sets (throughFrom proc J 0 (rejoinSpecSkip ..), process_frames normalisation, hidden topics removed, None of the join drops the id for the sink, every set under the id of the common source frame it was computed from): the composition of ALL filters of the diamond-plus-sink.  Proof by SIMULATION: the diamond part of every reachable state is a state of rejoinTopo satisfying the invariant of C03_net_rejoin_common_ids (recv(state) with state <= prev_id + 1 is recv(None); the join is never fast-forwarded by its single-source sink, although the ids it publishes under jump over the non-common frames), plus the chain invariant for the edge join -> sink.  Kernel-checked witness C03_net_rejoin_sink_needs_cntfree (BranchCntFree: the loss shows at the sink); the Lean example gSched is replayed on the real classes in every run (netfeed.rejoin_sink_witness: join 0, 1, 6, 7, ..; sink 0, 1, 7, ..) with negative controls of the sink part of the oracle (loss / wrong id / duplicate / a set the join dropped).  Rejoins with LONGER branches (rejoinLongTopo b L, OFProps/RejoinLongInv.lean + C03RejoinLong.lean): the statement (RejoinLongStmt: the join is handed a PREFIX of the source frames every branch delivers, each set holding every branch\'s END result for that frame; hypotheses ProcNames, OwnedLast, RelayCntFree for EVERY relay) is PROVED for L = 1 only (C03_net_rejoin_long_common_ids_one, reduction to C03_net_rejoin_common_ids) and TESTED for L >= 2: random schedules on the model, the kernel-evaluated run lSched in which a relay in the MIDDLE of a branch is fast-forwarded (nothing common lost), the counter-dependence witness C03_net_rejoin_long_needs_cntfree, and in every run branch lengths 1-3 on the real classes against the literal composition along each branch (netfeed.rejoin_long_ffwd_witness replays lSched).  NOT proved at stage C: rejoins with longer branches (L >= 2), relays below an independent join, restarts, loss / HWM / connection timing',
+               'tee-REJOIN WITH SKIPPING BRANCHES (stage C): TEE-REJOIN WITH SKIPPING BRANCHES (C03_net_rejoin_common_ids, OFProps/RejoinSkipRecv.lean + RejoinSkipSend.lean + C03RejoinSkip.lean): NoSkip removed - any branch may return None (directly or as the value of its callable) for any set; hypotheses ProcNames, Owned and BranchCntFree (the result of a branch does not depend on its call counter); for every restart-free schedule the sets handed to the join are a PREFIX of rejoinSpecSkip: the surviving source frames of which EVERY branch makes a dict, in increasing order, each set holding the output of every branch for that very frame (never mixed, nothing common lost, nothing duplicated or reordered).  Covers the receiver path "newer id: adopt it, reset the other sources" on dynamic streams (SInv, take_sinv, call0_joinS) and the fast-forward path of the sender (send0_ffwd): the join asks every branch for the adopted id - 1, a branch still holding an older frame drops it unpublished, is fast-forwarded, and its receiver discards the source frames below the adopted id WITHOUT calling process() - all of them frames a sibling dropped.  That is why BranchCntFree is needed: kernel-checked witness C03_net_rejoin_skip_needs_cntfree (a branch that drops "its fourth set": the frames handed to the join depend on the schedule), and the fast-forward witness fSched is replayed on the real classes in every run (netfeed.rejoin_ffwd_witness) together with negative controls of the oracle (loss / mixed / duplicate).  With a SINK below the tee-rejoin (C03_net_rejoin_sink_composition / _run / _edge, OFProps/RejoinSinkInv.lean + C03RejoinSink.lean, topology source -> b branches -> join -> sink, same hypotheses, the process functions of join and sink arbitrary): the sets handed to the join are a PREFIX of rejoinSpecSkip AND the sets handed to the sink are a PREFIX of the join\'s process function threaded through those sets (throughFrom proc J 0 (rejoinSpecSkip ..), process_frames normalisation, hidden topics removed, None of the join drops the id for the sink, every set under the id of the common source frame it was computed from): the composition of ALL filters of the diamond-plus-sink.  Proof by SIMULATION: the diamond part of every reachable state is a state of rejoinTopo satisfying the invariant of C03_net_rejoin_common_ids (recv(state) with state <= prev_id + 1 is recv(None); the join is never fast-forwarded by its single-source sink, although the ids it publishes under jump over the non-common frames), plus the chain invariant for the edge join -> sink.  Kernel-checked witness C03_net_rejoin_sink_needs_cntfree (BranchCntFree: the loss shows at the sink); the Lean example gSched is replayed on the real classes in every run (netfeed.rejoin_sink_witness: join 0, 1, 6, 7, ..; sink 0, 1, 7, ..) with negative controls of the sink part of the oracle (loss / wrong id / duplicate / a set the join dropped).  Rejoins with LONGER branches (rejoinLongTopo b L, OFProps/RejoinLongInv.lean + C03RejoinLong.lean): the statement (RejoinLongStmt: the join is handed a PREFIX of the source frames every branch delivers, each set holding every branch\'s END result for that frame; hypotheses ProcNames, OwnedLast, RelayCntFree for EVERY relay) is PROVED for L = 1 (C03_net_rejoin_long_common_ids_one, reduction to C03_net_rejoin_common_ids) and, for ANY b >= 1, L >= 1, under the extra hypothesis NoSkipLong (no relay of any branch returns None; C03_net_rejoin_long_composition_noskip / _run, OFProps/RejoinLongTopo.lean + RejoinLongNoSkip.lean + C03RejoinLongNoSkip.lean: PubInv for the source and EVERY relay - every queued request names an already published id, so no fast-forward ever fires and every relay is an ordinary chain relay -, ConInv on every edge of the tree part, KInv at the join over the last relays; RelayCntFree not needed there), and TESTED for L >= 2 with skipping relays: random schedules on the model, the kernel-evaluated run lSched in which a relay in the MIDDLE of a branch is fast-forwarded (nothing common lost), the counter-dependence witness C03_net_rejoin_long_needs_cntfree, and in every run branch lengths 1-3 on the real classes against the literal composition along each branch (netfeed.rejoin_long_ffwd_witness replays lSched).  NOT proved at stage C: rejoins with longer branches (L >= 2) whose relays SKIP, relays below an independent join, restarts, loss / HWM / connection timing',
                'MQNet replaces Filter.loop_once by a 10-line replica around the real MQ object (every call timeout=0, re-armed each poll interval or on arrival); libzmq by the in-process fake',
                'message delays below the 100 ms request interval, lossless channels, no restarts (C03 hypotheses)']
 TRUSTED = ['composition reference = the same Python process functions applied to the source sequence (harness/ofverif/pipeline.py: reference)']
